@@ -456,7 +456,6 @@ func ruleL1(r *Run) {
 			r.Viol(fmt.Sprintf("access %s #%d", fk, perField[fk]), v.acc.pos, fmt.Sprintf("%s of lock-guarded field %s without holding %s %s (held: {%s}): a concurrent goroutine can observe or corrupt the table", kind, v.acc.field.Name(), guarded[v.acc.field].Name(), map[bool]string{true: "exclusively", false: ""}[v.acc.write], v.held))
 		}
 		if res.oks > 0 && len(res.viols) == 0 {
-			r.cur = "L1"
 			for i := 0; i < res.oks; i++ {
 				r.Ok(fmt.Sprintf("accesses in %s #%d", u.name, i+1), u.body.Pos(), "guard held")
 			}
